@@ -1,6 +1,10 @@
 // State builder + reference semantics for the kind-N (one step from an arbitrary valid state) harnesses (DESIGN 3.1-3.3).
 // Nodes are built only through public members of the real classes, so the same code is the symbolic pre-state under
 // CBMC and the concrete pre-state in the native replay.
+//
+// What is CONCRETE per query (measured necessity, DESIGN 2.9): the topology, the entry count of every node, the slot
+// assignment (identity or a fixed scramble), the version counters.  What is SYMBOLIC: every key slice and key length
+// class, every value byte, the operation's key and value, the probe key, flags of the operation.
 #pragma once
 #include "kvs.h"
 #include "yk.h"
@@ -10,21 +14,18 @@ namespace ykb {
 using namespace yakushima;
 
 constexpr std::uint32_t M29 = (1U << 29) - 1U;
-// key alphabet: only the first YK_KEYB bytes of every 8-byte slice are symbolic, the rest are 0x00 (lengths stay 0..8/9).
-// All comparison sites are decided on ALL byte values at kind K (C18); node-level code only depends on order relations,
-// prefixes and lengths, which 2 symbolic bytes per slice already generate.  Thorough tier: 8 (everything symbolic).
+// key alphabet: only the first YK_KEYB bytes of every 8-byte slice are symbolic, the rest 0x00 (lengths stay 0..8/9).
 #ifndef YK_KEYB
 #define YK_KEYB 8
 #endif
 #ifndef YK_VINS0
-#define YK_VINS0 0x1ffffffeU /* two inserts away from the wrap */
+#define YK_VINS0 0x1ffffffeU /* two inserts away from the 2^29 wrap */
 #define YK_VSPLIT0 7U
 #endif
 
 inline std::uint64_t key_mask() { return YK_KEYB >= 8 ? ~0ULL : ((1ULL << (8 * (YK_KEYB % 8))) - 1ULL); }
-inline unsigned eff(unsigned len) { return len > 8 ? 8 : len; }
-// reference order on (slice,len) tuples = bytewise lexicographic on the key bytes, proper prefix first (C18 proves the
-// implementation's comparisons equal to this on all tuples)
+// reference order on (slice,len) tuples = bytewise lexicographic on the key bytes, proper prefix first (C18 decides the
+// implementation's comparison sites against the literal definition on all tuples; this is its closed form)
 inline bool ref_lt(std::uint64_t sa, unsigned la, std::uint64_t sb, unsigned lb) {
     std::uint64_t a = __builtin_bswap64(sa), b = __builtin_bswap64(sb);
     if (a != b) return a < b;
@@ -47,23 +48,26 @@ inline std::uint64_t raw_version(node_version64_body b) {
     std::memcpy(&w, &b, 8);
     return w;
 }
+// fixed slot assignments: 0 = identity, 1 = a scramble (rank i lives in slot (7*i+3) mod 15: a bijection on 0..14)
+inline unsigned slot_of(unsigned map, unsigned i) { return map == 0 ? i : (7 * i + 3) % 15; }
 
-// one entry of a border node as the oracle sees it
 struct entry {
     std::uint64_t slice;
-    unsigned len;          // 0..8 value entry, 9 link to next layer
+    unsigned len;          // 0..8 value entry, 9 link to the next layer
     unsigned char vbyte;   // the stored value is the 1-byte string {vbyte}
-    value* val;            // the value word stored in the slot (tagged pointer)
-    base_node* child;      // for len == 9
+    value* val;            // value word stored in the slot (tagged pointer), null for links
+    base_node* child;      // next-layer root for len == 9
     unsigned slot;
 };
 
 template<unsigned N>
-struct border_state {
+struct bstate {
     border_node* node;
     unsigned n;
-    entry e[N];
+    entry e[N > 0 ? N : 1];
 };
+
+inline value* mk_value(unsigned char byte) { return value::create_value<false>(&byte, 1, static_cast<value_align_type>(1)); }
 
 // slice/len of layer `layer` of a key
 inline void key_layer(const unsigned char* k, std::size_t kl, unsigned layer, std::uint64_t& slice, unsigned& len) {
@@ -75,90 +79,74 @@ inline void key_layer(const unsigned char* k, std::size_t kl, unsigned layer, st
         if (i < rest) slice |= (std::uint64_t) k[off + i] << (8 * i);
 }
 
-inline value* mk_value(unsigned char byte) {
-    return value::create_value<false>(&byte, 1, static_cast<value_align_type>(1));
-}
-
-// a border node with n <= N entries: symbolic keys (strictly ascending in the reference order), symbolic values,
-// symbolic slot assignment when sym_slots (else identity), symbolic version counters; flags as given.
+// A border node with exactly N entries (N concrete), strictly ascending symbolic keys, symbolic 1-byte values.
+// link_idx >= 0: that entry is a next-layer link (len 9) whose child is attached later with attach_layer().
+// lo/hi (optional): every entry lies in [lo, hi) in the reference order (for children of an interior node).
 template<unsigned N>
-inline void build_border(border_state<N>& st, bool root, bool allow_links, bool sym_slots, int fixed_n = -1) {
+inline void build_border(bstate<N>& st, bool root, unsigned slotmap, int link_idx = -1, bool deleted_if_empty = true) {
     auto* b = new border_node();
     st.node = b;
-    // fixed_n >= 0: the entry count is CONCRETE (one query per count): the count nibble of the permutation is then a
-    // constant, so symex knows the loop trip counts and that `cnk == 15` (split) is false; otherwise symbolic 1..N
-    if (fixed_n >= 0) {
-        st.n = (unsigned) fixed_n;
-    } else {
-        st.n = yk_nondet_u8();
-        yk_assume(st.n <= N);
-    }
-    std::uint64_t perm = st.n;
-    unsigned used = 0;
+    st.n = N;
+    std::uint64_t perm = N;
     for (unsigned i = 0; i < N; ++i) {
         entry& e = st.e[i];
         e.slice = yk_nondet_u64() & key_mask();
-        e.len = yk_nondet_u8();
+        e.len = ((int) i == link_idx) ? 9U : (unsigned) yk_nondet_u8();
         e.vbyte = yk_nondet_u8();
-        e.slot = sym_slots ? (yk_nondet_u8() & 15U) : i;
-        e.val = nullptr;
+        e.slot = slot_of(slotmap, i);
         e.child = nullptr;
         yk_assume(valid_tuple(e.slice, e.len));
-        yk_assume(allow_links || e.len <= 8);
-        yk_assume(e.slot < 15);
-        yk_assume(((used >> e.slot) & 1U) == 0);
+        yk_assume((int) i == link_idx || e.len <= 8);
         if (i > 0) yk_assume(ref_lt(st.e[i - 1].slice, st.e[i - 1].len, e.slice, e.len));
-        used |= 1U << e.slot;
-        e.val = mk_value(e.vbyte);
-        if (i < st.n) perm |= (std::uint64_t) e.slot << (4 * (i + 1));
-    }
-    // node arrays are written slot by slot at CONCRETE indices with symbolic contents (a symbolic-index write would make
-    // every later read of the array a read-over-write chain for the solver)
-    for (unsigned s = 0; s < 15; ++s) {
-        bool occupied = false;
-        std::uint64_t sl = 0;
-        unsigned ln = 0;
-        value* vv = nullptr;
-        for (unsigned i = 0; i < N; ++i) {
-            if (i < st.n && st.e[i].slot == s) {
-                occupied = true;
-                sl = st.e[i].slice;
-                ln = st.e[i].len;
-                vv = st.e[i].val;
-            }
-        }
-        if (occupied) {
-            b->set_key_slice_at(s, sl);
-            b->set_key_length_at(s, (key_length_type) ln);
-            if (ln <= 8) b->set_lv_value(s, vv, nullptr);
-        }
+        e.val = e.len <= 8 ? mk_value(e.vbyte) : nullptr;
+        perm |= (std::uint64_t) e.slot << (4 * (i + 1));
+        b->set_key_slice_at(e.slot, e.slice);
+        b->set_key_length_at(e.slot, (key_length_type) e.len);
+        if (e.len <= 8) b->set_lv_value(e.slot, e.val, nullptr);
     }
     b->get_permutation().set_body(perm);
-    // Version counters are CONCRETE here (DESIGN 2.9(3)): with symbolic counters in the same 64-bit word CBMC cannot
-    // constant-fold the border/root/deleted flag tests and explores every shape-dependent branch.  All counter values
-    // incl. the 2^29 wrap are covered at kind K (C17); tree code only compares counters for equality.
-    // (an EMPTY root border carries the `deleted` flag: that is shape T0d, built by build_empty_root - kept separate so
-    // that the flag word of this shape is one constant)
-    yk_assume(st.n >= 1);
-    b->set_version(mk_version(true, root, false, YK_VINS0, YK_VSPLIT0));
+    b->set_version(mk_version(true, root, N == 0 && root && deleted_if_empty, YK_VINS0, YK_VSPLIT0));
 }
 
-// T0d: the empty root border that `remove` of the last key leaves behind (root + deleted, no entries)
-inline border_node* build_empty_root() {
-    auto* b = new border_node();
-    b->get_permutation().set_body(0);
-    b->set_version(mk_version(true, true, true, YK_VINS0, YK_VSPLIT0));
-    return b;
+// make `child_root` (a root-flagged node of the next layer) the target of link entry `idx` of `parent`
+template<unsigned N>
+inline void attach_layer(bstate<N>& parent, unsigned idx, base_node* child_root) {
+    parent.e[idx].child = child_root;
+    parent.node->set_lv_next_layer(parent.e[idx].slot, child_root);
+    child_root->set_parent(parent.node);
 }
 
-// representation invariant of a border node (structural half of C08), evaluated on the real node
-inline bool ri_border(border_node* b, bool expect_root) {
+template<unsigned N>
+inline int ref_find(const bstate<N>& st, std::uint64_t qs, unsigned ql) {
+    int found = -1;
+    for (unsigned i = 0; i < N; ++i)
+        if (st.e[i].slice == qs && st.e[i].len == ql) found = (int) i;
+    return found;
+}
+// every entry of st is >= (ls,ll) [if has_lo] and < (hs,hl) [if has_hi]
+template<unsigned N>
+inline void assume_range(const bstate<N>& st, bool has_lo, std::uint64_t ls, unsigned ll, bool has_hi, std::uint64_t hs, unsigned hl) {
+    for (unsigned i = 0; i < N; ++i) {
+        if (has_lo) yk_assume(!ref_lt(st.e[i].slice, st.e[i].len, ls, ll));
+        if (has_hi) yk_assume(ref_lt(st.e[i].slice, st.e[i].len, hs, hl));
+    }
+}
+
+// ---- representation invariant (structural half of C08), evaluated on the REAL nodes
+inline bool ri_version_clean(node_version64_body v) { return !v.get_locked() && !v.get_inserting_deleting() && !v.get_splitting(); }
+
+// border: valid permutation, entries strictly ascending, value/link kind matches the length class, unused slots empty,
+// flags; entries within [lo,hi) if given.  cnt_out = entry count.
+inline bool ri_border(border_node* b, bool expect_root, base_node* expect_parent, unsigned* cnt_out = nullptr, bool has_lo = false,
+                      std::uint64_t ls = 0, unsigned ll = 0, bool has_hi = false, std::uint64_t hs = 0, unsigned hl = 0) {
     std::uint64_t perm = b->get_permutation().get_body();
     unsigned n = perm & 15U, used = 0;
     node_version64_body v = b->get_version();
-    if (!v.get_border() || v.get_locked() || v.get_inserting_deleting() || v.get_splitting()) return false;
+    if (!v.get_border() || !ri_version_clean(v)) return false;
     if (v.get_root() != expect_root) return false;
-    if (v.get_deleted() != (n == 0)) return false;
+    if (v.get_deleted() != (n == 0 && expect_root)) return false;
+    if (b->get_parent() != expect_parent) return false;
+    if (cnt_out != nullptr) *cnt_out = n;
     std::uint64_t ps = 0;
     unsigned pl = 0;
     for (unsigned i = 0; i < 15; ++i) {
@@ -170,13 +158,16 @@ inline bool ri_border(border_node* b, bool expect_root) {
             unsigned kl = b->get_key_length_at(s);
             if (!valid_tuple(ks, kl)) return false;
             if (i > 0 && !ref_lt(ps, pl, ks, kl)) return false;
+            if (has_lo && ref_lt(ks, kl, ls, ll)) return false;
+            if (has_hi && !ref_lt(ks, kl, hs, hl)) return false;
             ps = ks;
             pl = kl;
             link_or_value* lv = b->get_lv_at(s);
             if (kl <= 8) {
                 if (lv->get_value() == nullptr || lv->get_next_layer() != nullptr) return false;
             } else {
-                if (lv->get_next_layer() == nullptr) return false;
+                base_node* c = lv->get_next_layer();
+                if (c == nullptr || c->get_parent() != b || !c->get_version_root() || c->get_version_deleted()) return false;
             }
         }
     }
@@ -188,13 +179,39 @@ inline bool ri_border(border_node* b, bool expect_root) {
     return true;
 }
 
-// reference lookup in the pre-state (walk), independent of the implementation's search
-template<unsigned N>
-inline int ref_find(const border_state<N>& st, std::uint64_t qs, unsigned ql) {
-    int found = -1;
-    for (unsigned i = 0; i < N; ++i)
-        if (i < st.n && st.e[i].slice == qs && st.e[i].len == ql) found = (int) i;
-    return found;
+// interior with border children: 1 <= n_keys <= 15, separators strictly ascending, children 0..n_keys non-null with
+// parent == this and !root, the rest null; child j holds keys in [key[j-1], key[j]); leaf chain == in-order children.
+inline bool ri_interior_of_borders(interior_node* in, bool expect_root, base_node* expect_parent, unsigned expect_children) {
+    node_version64_body v = in->get_version();
+    if (v.get_border() || !ri_version_clean(v) || v.get_deleted()) return false;
+    if (v.get_root() != expect_root || in->get_parent() != expect_parent) return false;
+    unsigned nk = in->get_n_keys();
+    if (nk < 1 || nk > 15 || nk + 1 != expect_children) return false;
+    border_node* prev = nullptr;
+    for (unsigned j = 0; j < 16; ++j) {
+        base_node* c = in->get_child_at(j);
+        if (j <= nk) {
+            if (c == nullptr || !c->get_version_border()) return false;
+            auto* cb = static_cast<border_node*>(c);
+            bool has_lo = j > 0, has_hi = j < nk;
+            if (!ri_border(cb, false, in, nullptr, has_lo, has_lo ? in->get_key_slice_at(j - 1) : 0, has_lo ? in->get_key_length_at(j - 1) : 0,
+                           has_hi, has_hi ? in->get_key_slice_at(j) : 0, has_hi ? in->get_key_length_at(j) : 0))
+                return false;
+            if (cb->get_permutation_cnk() == 0) return false; // an emptied border must have been unlinked
+            if (cb->get_prev() != prev) return false;
+            if (prev != nullptr && prev->get_next() != cb) return false;
+            prev = cb;
+        } else if (c != nullptr) {
+            return false;
+        }
+    }
+    if (prev == nullptr || prev->get_next() != nullptr) return false;
+    for (unsigned j = 0; j < 15; ++j) {
+        if (j + 1 < nk && !ref_lt(in->get_key_slice_at(j), in->get_key_length_at(j), in->get_key_slice_at(j + 1), in->get_key_length_at(j + 1))) return false;
+        if (j < nk && !valid_tuple(in->get_key_slice_at(j), in->get_key_length_at(j))) return false;
+        if (j >= nk && (in->get_key_slice_at(j) != 0 || in->get_key_length_at(j) != 0)) return false;
+    }
+    return true;
 }
 
 struct sym_key {
@@ -206,5 +223,21 @@ inline void make_key(sym_key& k) {
     for (unsigned i = 0; i < KMAX; ++i) k.b[i] = (i % 8) < YK_KEYB ? yk_nondet_u8() : (unsigned char) 0;
     k.len = yk_nondet_u8();
     yk_assume(k.len <= KMAX);
+}
+inline std::string_view sv(const sym_key& k) { return std::string_view(reinterpret_cast<const char*>(k.b), k.len); }
+
+struct session {
+    thread_info ti;
+    Epoch ep;
+    Token tok() { return &ti; }
+};
+inline void open_session(session& s) {
+    s.ep = yk_nondet_u64();
+    yk_assume(s.ep != 0);
+    s.ti.set_begin_epoch(s.ep);
+}
+// exactly one RETIRE event for block `blk` tagged with the session's epoch, and nothing reclaimed
+inline bool retired_once(const void* blk, Epoch ep) {
+    return yk_event_count() == 1 && yk_event_kind(0) == 0 && yk_event_ptr(0) == blk && yk_event_tag(0) == ep;
 }
 } // namespace ykb
